@@ -193,4 +193,20 @@ func init() {
 			return strings.Contains(key, "reader/")
 		}),
 	}
+	properties["C04"] = &Property{
+		Rules: []string{"L1", "E2", "G3", "A10", "C2"},
+		Explanation: "Decides the structural clauses of C04: (L1) the series fingerprint is order-independent by construction — every accumulator is combined with +, ^ or * with a value computed from the current label only; (E2) the stored label document is produced by a JSON encoder, never by Go quoting; " +
+			"(G3) the day under which the series (and trace tag) index row is stored is computed in UTC, the same day the read side searches, in every process time zone; (C2) the series row arrays grow in lock-step; (A10) the (day, fingerprint) announce mark must be revocable when the series insert fails.",
+		NotCovered:  "Collision freedom of the 64-bit fingerprint; that all ingest protocols sanitise labels alike (the Datadog / OTLP decoders do not call sanitizeLabels — the statement speaks of sanitized pairs, so no rule is armed); cache expiry timing.",
+		Assumptions: []string{"ch-go ColDate.Append adds the value's zone offset", "uint64 +, ^, * are commutative and associative (wrap-around arithmetic)"},
+		Filter: keepIf(func(rule, key string) bool {
+			switch rule {
+			case "E2", "G3":
+				return strings.Contains(key, "writer/")
+			case "C2":
+				return strings.Contains(key, "TimeSeriesData")
+			}
+			return true
+		}),
+	}
 }
